@@ -33,7 +33,10 @@ Fin(n0, s0, e0) ==
   IF big \/ AbsI(ns.n) >= Lim \/ ns.s > MaxS THEN OOD
   ELSE IF e # 0 /\ AbsI(ns.n) \div Pow(2, ns.s) >= 1048576 THEN OOD     \* keeps n/2^s + e/2^32 within 53 bits
   ELSE [k |-> "fin", n |-> ns.n, s |-> ns.s, e |-> e]
-NInt(n) == [k |-> "fin", n |-> n, s |-> 0, e |-> 0]
+\* an integer as a number: exact "big" form from 2^30 on (TLC integers reach 2^31 - 1)
+NInt(n) == IF AbsI(n) < Lim THEN [k |-> "fin", n |-> n, s |-> 0, e |-> 0]
+           ELSE [k |-> "big", neg |-> n < 0, d |-> [i \in 1..Len(NatDigits(AbsI(n))) |-> NatDigits(AbsI(n))[i] - 48],
+                 r |-> IntDigits(n)]
 Zero == NInt(0)
 One == NInt(1)
 Inf(neg) == [k |-> "inf", neg |-> neg]
@@ -93,7 +96,7 @@ NumDiv(x, y) ==
     ELSE IF x.e # 0 \/ y.e # 0 THEN OOD
     ELSE LET od == OddPart(y.n)           \* y = od * 2^(te - y.s)
              te == TwoExp(y.n) IN
-         IF x.n % od # 0 THEN OOD
+         IF x.n % AbsI(od) # 0 THEN OOD
          ELSE \* (x.n/od) / 2^(x.s) / 2^(te - y.s) = (x.n/od) * 2^(y.s) / 2^(x.s + te)
               IF y.s > 20 THEN OOD
               ELSE IF AbsI(x.n \div od) >= Lim \div Pow(2, y.s) THEN OOD
